@@ -12,7 +12,7 @@ ASSUMPTIONS = ["'flattened to exactly zero' needs no deposit in transit (finding
 def run(ctx):
     corrs = tstream.make_corrs(ctx)
     tstream.stream(ctx, ctx.n(50, 2500), corrs, [monitors.c02_monitor], acct_types=("FUTURE",),
-                   market_opts=lambda k: {"with_future": True, "n_stocks": 0 if k % 2 else None, "opts": {"p_expire": 0.6}}, cfg_opts=lambda k: {"p_init_pos": 0.25})
+                   market_opts=lambda k: {"with_future": True, "n_stocks": 0 if k % 2 else None, "opts": {"p_expire": 0.6}}, cfg_opts=lambda k: {"p_init_pos": 0.25, "pf_roundtrip": k % 3 == 2})
 
 
 def replay(ctx, data):
